@@ -332,6 +332,31 @@ Fixpoint ncalls (h : list devent) : nat :=
 
 Definition d_is_fire (e : devent) : bool :=
   match e with DFire _ _ => true | _ => false end.
+Definition d_is_call (e : devent) : bool :=
+  match e with DCall _ _ => true | _ => false end.
+
+(* the callbacks a history starts, oldest first, read off the events alone:
+   a firing runs the function of the Call right before it ([prev] = function
+   of the pending call, None after a Cancel or a firing) *)
+Fixpoint d_fire_log (prev : option Z) (h : list devent) : list (Z * Z) :=
+  match h with
+  | [] => []
+  | DCall _ f :: h' => d_fire_log (Some f) h'
+  | DCancel _ :: h' => d_fire_log None h'
+  | DFire _ t :: h' =>
+      match prev with Some f => (t, f) :: d_fire_log None h' | None => d_fire_log None h' end
+  end.
+
+(* bursts of a history: maximal blocks of consecutive Calls, i.e. each call of
+   the block arrives while the previous one's timer has not fired (a firing or
+   a Cancel ends the block) *)
+Fixpoint bursts_from (in_burst : bool) (h : list devent) : nat :=
+  match h with
+  | [] => O
+  | DCall _ _ :: h' => ((if in_burst then 0 else 1) + bursts_from true h')%nat
+  | _ :: h' => bursts_from false h'
+  end.
+Definition bursts (h : list devent) : nat := bursts_from false h.
 
 Definition l_is_stop (e : levent) : bool :=
   match e with LStop _ => true | _ => false end.
@@ -344,3 +369,18 @@ Definition last_grant (h : list tevent) : option Z :=
 
 Definition t_is_fire (e : tevent) : bool :=
   match e with TFire _ => true | _ => false end.
+Definition t_is_call (e : tevent) : bool :=
+  match e with TCall _ => true | _ => false end.
+Definition t_is_cancel (e : tevent) : bool :=
+  match e with TCancel _ => true | _ => false end.
+
+(* number of triggers (Call) of a history *)
+Fixpoint tcalls (h : list tevent) : nat :=
+  match h with
+  | [] => O
+  | TCall _ :: h' => S (tcalls h')
+  | _ :: h' => tcalls h'
+  end.
+
+(* a permission is owed: a trigger has been accepted and not yet consumed *)
+Definition k_owed (k : tcore) : bool := k_waiting k || is_some (k_sched k).
